@@ -4,6 +4,7 @@ package c10
 import (
 	"context"
 	"fmt"
+	"time"
 
 	"github.com/ThreeDotsLabs/watermill/message"
 
@@ -233,6 +234,210 @@ func secondRunScenario(c int) *explore.Scenario {
 	}}
 }
 
+// ---- lifecycle programs ---------------------------------------------------------------------------------------
+//
+// Every program of length L over {AddHandler, Run, wait Running, RunHandlers, wait Started(h), Stop(h)+wait
+// Stopped(h), open h's subscriber, settle, cancel the Run context, Close, second Run} that the API permits
+// (nothing is added or started once a shutdown was triggered) is run against the router; a small
+// reference model of the documented lifecycle says what must be true when the program has settled.
+
+type mh struct {
+	name           string
+	startRequested bool // added before Run, or RunHandlers called since it was added
+	startedWaited  bool
+	stopped        bool
+	opened         bool
+	mustHandle     bool // at a settled point it was running with its subscriber open
+	maybeStarted   bool // added while Run was starting up: Run's own RunHandlers may or may not have seen it
+}
+
+func programScenario(L, maxH, c int, lazy bool) *explore.Scenario {
+	name := fmt.Sprintf("program/len%d/H%d", L, maxH)
+	if c >= 0 {
+		name += fmt.Sprintf("/c%d", c)
+	}
+	if lazy {
+		name += "/lazystart"
+	}
+	return &explore.Scenario{Name: name, C: c, DataOnly: c < 0, Opts: vs.Options{LazyStart: lazy}, Body: func() {
+		e := newEnv()
+		var hs []*mh
+		runStarted, runningWaited, shutdown := false, false, false
+		cause := "" // what triggered the shutdown
+		runDone := false
+		ctx, cancel := context.WithCancel(context.Background())
+		defer cancel()
+		prog := ""
+		settle := func() {
+			time.Sleep(time.Minute) // virtual: longer than the default CloseTimeout, so a Close that waits it out is over
+			vs.Quiesce()
+			for _, h := range hs {
+				if runStarted && !shutdown && h.startRequested && h.opened && !h.stopped {
+					h.mustHandle = true
+				}
+			}
+		}
+		allStopped := func() bool {
+			for _, h := range hs {
+				if !h.stopped {
+					return false
+				}
+			}
+			return len(hs) > 0
+		}
+		for step := 0; step < L; step++ {
+			type op struct {
+				name string
+				do   func()
+			}
+			var ops []op
+			if !shutdown && len(hs) < maxH {
+				ops = append(ops, op{"Add", func() {
+					h := &mh{name: fmt.Sprintf("h%d", len(hs)), maybeStarted: runStarted && !runningWaited}
+					e.addHandler(h.name, 1)
+					hs = append(hs, h)
+				}})
+			}
+			if !runStarted {
+				ops = append(ops, op{"Run", func() {
+					runStarted = true
+					for _, h := range hs {
+						h.startRequested = true
+					}
+					e.run(ctx, &runDone)
+				}})
+			}
+			if runStarted && !runningWaited && !shutdown {
+				ops = append(ops, op{"WaitRunning", func() {
+					<-e.r.Running()
+					runningWaited = true
+					for _, h := range hs {
+						if h.startRequested && e.subs[h.name].Subscribed["in-"+h.name] != 1 {
+							vs.Fail("running-after-subscribe", "program [%s]: Running() is closed but handler %s holds %d subscriptions", prog, h.name, e.subs[h.name].Subscribed["in-"+h.name])
+						}
+					}
+				}})
+			}
+			if runningWaited && !shutdown {
+				ops = append(ops, op{"RunHandlers", func() {
+					if err := e.r.RunHandlers(ctx); err != nil {
+						vs.Fail("runhandlers-error", "program [%s]: %v", prog, err)
+					}
+					for _, h := range hs {
+						h.startRequested = true
+					}
+				}})
+				ops = append(ops, op{"SecondRun", func() {
+					if err := e.r.Run(context.Background()); err == nil {
+						vs.Fail("second-run", "program [%s]: a second Run returned nil", prog)
+					}
+				}})
+				ops = append(ops, op{"Close", func() {
+					shutdown, cause = true, "Close"
+					e.r.Close() // its result is the subject of C06 (with a handler that was added but never started it is a timeout error)
+				}})
+			}
+			if runStarted && !shutdown {
+				ops = append(ops, op{"CancelRunContext", func() { shutdown, cause = true, "the Run context was cancelled"; cancel() }})
+			}
+			for _, h := range hs {
+				h := h
+				if runStarted && h.startRequested && !h.startedWaited && !shutdown {
+					ops = append(ops, op{"WaitStarted(" + h.name + ")", func() {
+						<-e.hs[h.name].Started()
+						h.startedWaited = true
+					}})
+				}
+				if h.startedWaited && !h.stopped && !shutdown {
+					ops = append(ops, op{"Stop(" + h.name + ")", func() {
+						e.hs[h.name].Stop()
+						st := e.hs[h.name].Stopped()
+						if st == nil {
+							vs.Fail("stopped-usable", "program [%s]: Stopped() of %s is nil after Started() was closed", prog, h.name)
+							return
+						}
+						<-st
+						h.stopped = true
+						if allStopped() {
+							shutdown, cause = true, "the last handler was stopped" // the router closes itself
+						}
+					}})
+				}
+				if !h.opened {
+					ops = append(ops, op{"Open(" + h.name + ")", func() { h.opened = true; e.subs[h.name].Open() }})
+				}
+			}
+			ops = append(ops, op{"Settle", settle})
+			o := ops[vs.Choose(len(ops), 0, "lifecycle operation")]
+			prog += o.name + " "
+			o.do()
+		}
+		settle()
+		// ---- the reference model's verdict
+		// (handlers the router never started a run loop for)
+		var unstarted []string
+		for _, h := range hs {
+			if e.subs[h.name].SubscribeCalls == 0 {
+				unstarted = append(unstarted, h.name)
+			}
+		}
+		why := cause
+		if cause == "the Run context was cancelled" && (len(hs) == 0 || len(unstarted) > 0) {
+			why = fmt.Sprintf("the Run context was cancelled while %d handlers existed of which %v had not been started", len(hs), unstarted)
+		}
+		if runStarted && runDone != shutdown {
+			if shutdown {
+				vs.Fail("self-close", "program [%s]: %s, but Run has not returned", prog, why)
+			} else {
+				vs.Fail("run-returns-only-after-shutdown", "program [%s]: Run returned although no handler ended, the context is live and Close was not called", prog)
+			}
+		}
+		if runStarted && shutdown && !e.r.IsClosed() {
+			vs.Fail("self-close", "program [%s]: %s, but the router is not closed", prog, why)
+		}
+		if runStarted && !shutdown && e.r.IsClosed() {
+			vs.Fail("run-returns-only-after-shutdown", "program [%s]: router closed itself although nothing ended it", prog)
+		}
+		for _, h := range hs {
+			sc := e.subs[h.name].SubscribeCalls
+			switch {
+			case h.maybeStarted && !h.startRequested:
+				if sc > 1 {
+					vs.Fail("started-once", "program [%s]: handler %s subscribed %d times", prog, h.name, sc)
+				}
+			case !runStarted || !h.startRequested:
+				if sc != 0 {
+					vs.Fail("started-once", "program [%s]: handler %s was never to be started but subscribed %d times", prog, h.name, sc)
+				}
+			case h.startedWaited || !shutdown:
+				if sc != 1 {
+					vs.Fail("started-once", "program [%s]: handler %s subscribed %d times, expected once", prog, h.name, sc)
+				}
+			default:
+				if sc > 1 {
+					vs.Fail("started-once", "program [%s]: handler %s subscribed %d times", prog, h.name, sc)
+				}
+			}
+			n := e.handle[h.name]
+			if h.mustHandle && n != 1 {
+				vs.Fail("keeps-processing", "program [%s]: handler %s was running with a message waiting, but handled it %d times", prog, h.name, n)
+			}
+			if n > 1 {
+				vs.Fail("started-once", "program [%s]: handler %s handled its only message %d times", prog, h.name, n)
+			}
+			if runStarted && !shutdown && !h.stopped && e.pubs[h.name].CloseCalls != 0 {
+				vs.Fail("stop-only-that-handler", "program [%s]: publisher of the running handler %s was closed", prog, h.name)
+			}
+			if runStarted && shutdown && h.startedWaited {
+				if st := e.hs[h.name].Stopped(); st == nil || !vs.PeekClosed(st) {
+					vs.Fail("self-close", "program [%s]: router shut down but Stopped() of %s is not closed", prog, h.name)
+				}
+			}
+		}
+		vs.Note("%s", prog)
+	}}
+}
+
 func init() {
 	add := func(tier reg.Tier, w int, mk func(c int) *explore.Scenario, cq, ct int) {
 		sc := mk(cq)
@@ -255,4 +460,17 @@ func init() {
 		add(reg.Quick, 10, func(c int) *explore.Scenario { return selfCloseScenario(how, c) }, 1, 2)
 	}
 	add(reg.Quick, 5, func(c int) *explore.Scenario { return secondRunScenario(c) }, 1, 2)
+	for L := 1; L <= 7; L++ {
+		L := L
+		tier := reg.Quick
+		if L > 6 {
+			tier = reg.Thorough
+		}
+		add(tier, L*L, func(c int) *explore.Scenario { return programScenario(L, 2, -1, false) }, -1, -1)
+	}
+	// the same programs under preemptions / with late goroutine starts
+	add(reg.Quick, 20, func(c int) *explore.Scenario { return programScenario(3, 2, c, false) }, 1, 2)
+	add(reg.Quick, 40, func(c int) *explore.Scenario { return programScenario(4, 2, c, false) }, 0, 1)
+	add(reg.Quick, 40, func(c int) *explore.Scenario { return programScenario(4, 2, c, true) }, 0, 1)
+	add(reg.Thorough, 80, func(c int) *explore.Scenario { return programScenario(5, 2, c, false) }, 1, 1)
 }
